@@ -91,9 +91,9 @@ def generate(rng: random.Random, tier: str) -> dict:
     else:
         c["precondition_frequency"] = rng.choice([1, 2, 5])
         c["start_preconditioning_step"] = max(n_steps + rng.choice([1, 2, 50]), c["precondition_frequency"])
-    dtype = rng.choice(["float64", "float64", "float64", "float32", "bfloat16"])
-    if dtype == "bfloat16":
-        c["preconditioner_dtype"] = "float32"
+    # bfloat16 is not used for this twin: torch.optim and Shampoo round at different places (fused alpha vs separate
+    # multiply), and with momentum the two bfloat16 states drift apart by tens of percent within a few steps
+    dtype = rng.choice(["float64", "float64", "float64", "float32"])
     n_params = rng.choice([1, 2, 3, 4])
     params = gen.gen_params(rng, n_params, dtype)
     n_groups = min(n_params, rng.choice([1, 1, 2]))
@@ -178,3 +178,36 @@ def sample_view(trace: dict) -> dict:
     d["target"] = trace["target"]
     d["norm_mode"] = trace["norm_mode"]
     return d
+
+
+def valid_trace(t: dict) -> bool:
+    """Preconditions of the equivalence (generator constraints): the minimiser must not shrink a trace out of them."""
+    c, target = t["config"], t.get("target")
+    g = c.get("grafting")
+    if g is None or target is None:
+        return False
+    if {"sgd": "sgd", "adagrad": "adagrad", "rmsprop": "rmsprop", "adam": "adam", "adamw": "adam"}[target] != g["type"]:
+        return False
+    if c["dampening"] != 0.0:
+        return False
+    cfgs = [c] + [{**c, **gr.get("overrides", {})} for gr in t["groups"]]
+    for cc in cfgs:
+        if target in ("sgd", "adagrad", "rmsprop"):
+            if cc["betas"][0] != 0.0 or cc["use_decoupled_weight_decay"]:
+                return False
+            if target == "adagrad" and cc["momentum"] != 0.0:
+                return False
+            if target != "sgd" and cc["use_nesterov"]:
+                return False
+            if target == "sgd" and cc["use_nesterov"] and cc["momentum"] == 0.0:
+                return False
+        else:
+            if cc["betas"][0] == 0.0 or cc["beta3"] not in (-1.0, cc["betas"][0]) or not cc["use_bias_correction"] or cc["momentum"] != 0.0:
+                return False
+            if cc["use_decoupled_weight_decay"] != (target == "adamw"):
+                return False
+    if t.get("norm_mode") and (c["momentum"] != 0.0 or c["weight_decay"] != 0.0):
+        return False
+    if any(p["dtype"] == "bfloat16" for p in t["params"]):
+        return False
+    return True
